@@ -485,6 +485,68 @@ func (t *Taint) stepCall(ci ssa.CallInstruction, cg *callgraph.Graph) {
 
 func elemOfKeep(l taintLevel) taintLevel { return loadFrom(l) }
 
+// leafLevelAtCall: the level of a value that is the result of a call of a module function, judged with what the call
+// site knows: a callee that hands its own argument back when another argument is nil (`if results == nil { return
+// row }`) does not do so for a call that is made only with that argument non-nil. Every other way the callee can
+// return counts with the level the whole-program fixpoint gave it.
+func (t *Taint) leafLevelAtCall(v ssa.Value) taintLevel {
+	c, ok := v.(*ssa.Call)
+	if !ok {
+		return t.val[v]
+	}
+	f := c.Call.StaticCallee()
+	if f == nil || f.Blocks == nil || f.Signature.Results().Len() != 1 {
+		return t.val[v]
+	}
+	args := c.Call.Args
+	worst := taintLevel(0)
+	for _, b := range f.Blocks {
+		ret, isRet := b.Instrs[len(b.Instrs)-1].(*ssa.Return)
+		if !isRet || b == f.Recover || len(ret.Results) != 1 {
+			continue
+		}
+		leaves := []ssa.Value{ret.Results[0]}
+		if _, isPhi := ret.Results[0].(*ssa.Phi); isPhi {
+			if pl, complete := pathLeavesAt(f, ret, ret.Results[0]); complete && len(pl) > 0 {
+				leaves = pl
+			} else {
+				return t.val[v]
+			}
+		}
+		for _, rl := range leaves {
+			lvl := t.val[rl]
+			if q, isParam := rl.(*ssa.Parameter); isParam {
+				// the argument itself is handed back: only where the guard of this return can hold at the call site
+				infeasible := false
+				for i, r := range f.Params {
+					if i >= len(args) || r == q {
+						continue
+					}
+					rr := r
+					if guardedNil(b, func(x ssa.Value) bool { return x == ssa.Value(rr) }, true) {
+						arg := args[i]
+						if definitelyNonNil(arg, 0) || guardedNil(c.Block(), func(x ssa.Value) bool { return x == arg }, false) {
+							infeasible = true
+						}
+					}
+				}
+				if infeasible {
+					continue
+				}
+				for i, r := range f.Params {
+					if r == q && i < len(args) {
+						lvl = t.val[args[i]]
+					}
+				}
+			}
+			if lvl > worst {
+				worst = lvl
+			}
+		}
+	}
+	return worst
+}
+
 func (t *Taint) sinkFunc(fn *ssa.Function) {
 	add := func(in ssa.Instruction, v ssa.Value, what string) {
 		l := t.val[v]
@@ -500,8 +562,8 @@ func (t *Taint) sinkFunc(fn *ssa.Function) {
 				if complete && len(leaves) > 0 {
 					worst := taintLevel(0)
 					for _, lf := range leaves {
-						if t.val[lf] > worst {
-							worst = t.val[lf]
+						if lv := t.leafLevelAtCall(lf); lv > worst {
+							worst = lv
 						}
 					}
 					if worst < tElem {
